@@ -1071,13 +1071,13 @@ class Filterbank(ABC):
         max_delay = int(chan_delays.max())
         gulp = max(2 * max_delay, gulp)
         out_ar = np.zeros((gulp - max_delay) * nsub, dtype="float32")
-        new_foff = self.header.foff * self.header.nchans // nsub
-        new_fch1 = self.header.ftop - new_foff / 2
+        new_foff = self.header.foff * subfactor
+        new_fch1 = self.header.ftop + new_foff / 2
         chan_to_sub = np.arange(self.header.nchans, dtype="int32") // subfactor
         updates = {
             "fch1": new_fch1,
             "foff": new_foff,
-            "refdm": dm,
+            "dm": dm,
             "nchans": nsub,
             "nbits": 32,
             "tstart": self.header.mjd_after_nsamps(start),
